@@ -1,5 +1,6 @@
 import Witverif.Async.Script
 import Witverif.Async.SubtaskSpec
+import Witverif.Async.WaitableSpec
 import Drivers.Util
 /-! Driver for the async runtime models, executable `m_async`.
 Request line:  a script line of harness/rt-native engine `script`
@@ -11,6 +12,8 @@ Answer line:   the model's predicted trace (`-` for modes the model does not pre
                the spec side evaluated on the IMPLEMENTATION's trace:
                  * `SubtaskSpec.run/complete` for every call of the script (C21 classes `lists-*`,
                    `owns-*`, `lift-*`, `handle-*`, `cancel-*`, `area-*`, `call-order`),
+                 * `WaitableSpec.run/complete` for every waitable handle + clone/drop balance per task
+                   (C18 classes `waitable:<clause>`),
                  * `Host.follow`: every recorded host answer is legal (classes `host:<rule>`),
                  * ledger anomalies / host traps (`anomaly:<token>`), leak and allocator errors from
                    the end token (`leak`, `alloc-errors`), `panic`. -/
@@ -40,7 +43,8 @@ def parseInstr (t : String) : Option Instr :=
   | none => none
   | some k =>
     if t.startsWith "c" then some (.new k) else if t.startsWith "p" then some (.poll k)
-    else if t.startsWith "a" then some (.await k) else if t.startsWith "d" then some (.drop k) else none
+    else if t.startsWith "a" then some (.await k) else if t.startsWith "d" then some (.drop k)
+    else if t.startsWith "t" then some (.task k) else none
 
 def parseDir (t : String) : Option Dir :=
   let arg := (t.drop 1).toString
@@ -72,6 +76,18 @@ def specVerdict (sc : Script) (impl : List Ev) : List String :=
       match SubtaskSpec.complete c.spec.area m with
       | .error cls => [s!"{cls}@{c.spec.k}"]
       | .ok () => []
+  -- C18: registration / delivery / unregistration, per waitable handle
+  let perHandle := (WaitableSpec.handles impl).flatMap fun w =>
+    match WaitableSpec.run w {} impl with
+    | .error cls => [s!"waitable:{cls}@h{w}"]
+    | .ok m =>
+      if impl.any (fun e => e == .panic || e == .abort) then [] else
+      match WaitableSpec.complete m with
+      | .error cls => [s!"waitable:{cls}@h{w}"]
+      | .ok () => []
+  let taskRefs := [1, 2].flatMap fun t =>
+    if impl.any (fun e => e == .panic || e == .abort) then [] else
+    if WaitableSpec.cloneBalance t impl != 0 then [s!"waitable:task-ref-leaked@t{t}"] else []
   let host := (Host.follow impl).map fun r => s!"host:{r}@-"
   let anomalies := impl.filterMap fun e => match e with
     | .other s => some s!"anomaly:{s}@-"
@@ -81,7 +97,7 @@ def specVerdict (sc : Script) (impl : List Ev) : List String :=
     | some (.endTok (some l) errs) => (if l != 0 then [s!"leak:{l}@-"] else []) ++ (if errs != 0 then [s!"alloc-errors:{errs}@-"] else [])
     | some (.endTok none errs) => if errs != 0 then [s!"alloc-errors:{errs}@-"] else []
     | _ => ["malformed-end@-"]
-  perCall ++ host ++ anomalies ++ endTok
+  perCall ++ perHandle ++ taskRefs ++ host ++ anomalies ++ endTok
 
 def handle (line : String) : String :=
   let parts := line.splitOn "\t"
